@@ -143,7 +143,7 @@ FeedExact(s, a) ==
 \* ---------------------------------------------------------------- the C03 table
 W == Full
 Paths == {"get", "getcached", "cachedwrite", "query", "sub", "push", "insert", "setabs", "setrel", "makesecret", "makecrown",
-          "delete", "purge", "putmany", "put", "putnew",
+          "delete", "purge", "cachedpurge", "putmany", "put", "putnew",
           "apiget", "apiquery", "apisub", "apiqsub", "apiupdate", "apicreate", "apiinsert", "apidelete"}
 ApiPath(p) == p \in {"apiget", "apiquery", "apisub", "apiqsub", "apiupdate", "apicreate", "apiinsert", "apidelete"}
 TQ(name, via, i, q, slot, T) == Op(name, via, i, 0, 0, FALSE, FALSE, q, T[q].p, T[q].c, slot, <<>>, "pass", <<>>, 0)
@@ -176,7 +176,7 @@ PathOps(path, i, sec, crown, T) ==
             [] path = "makesecret" -> << KeyOp("MakeSecret", "if", i, k, 0, FALSE, FALSE) >>
             [] path = "makecrown" -> << KeyOp("MakeCrownJewel", "if", i, k, 0, FALSE, FALSE) >>
             [] path = "delete" -> << KeyOp("Delete", "if", i, k, 0, FALSE, FALSE) >>
-            [] path = "purge" -> << TQ("Purge", "if", i, 2, 0, T), KeyOp("Get", "if", W, k, 0, FALSE, FALSE), TQ("Purge", "if", i, 1, 0, T) >>
+            [] path \in {"purge", "cachedpurge"} -> << TQ("Purge", "if", i, 2, 0, T), KeyOp("Get", "if", W, k, 0, FALSE, FALSE), TQ("Purge", "if", i, 1, 0, T) >>
             [] path = "putmany" -> << [O0("PutMany", "if", i) EXCEPT !.batch = <<BatchItem(k, 3, FALSE, FALSE), BatchItem(4, 1, FALSE, FALSE)>>] >>
             [] path = "put" -> << KeyOp("Put", "if", i, k, 3, FALSE, FALSE), KeyOp("Put", "if", i, 4, 1, TRUE, TRUE),
                                   KeyOp("Get", "if", i, 4, 0, FALSE, FALSE), KeyOp("Put", "if", i, 4, 2, FALSE, FALSE) >>
@@ -197,9 +197,9 @@ PathOps(path, i, sec, crown, T) ==
 
 TableRows == {<<path, i, fl>> : path \in Paths, i \in Ifaces, fl \in BOOLEAN \X BOOLEAN}
 RowOK(r) == ApiPath(r[1]) => r[2] = 1
-RowCfg(r, T) == [kind |-> IF r[1] = "push" THEN "runtime" ELSE IF r[1] \in {"purge", "putmany"} THEN "store" ELSE "any",
+RowCfg(r, T) == [kind |-> IF r[1] = "push" THEN "runtime" ELSE IF r[1] \in {"purge", "cachedpurge", "putmany"} THEN "store" ELSE "any",
                  api |-> ApiPath(r[1]),
-                 cachei |-> IF r[1] \in {"getcached", "cachedwrite"} THEN r[2] ELSE 0,
+                 cachei |-> IF r[1] \in {"getcached", "cachedwrite", "cachedpurge"} THEN r[2] ELSE 0,
                  queries |-> T,
                  row |-> <<r[1], ToString(r[2]), IF r[3][1] THEN "secret" ELSE "-", IF r[3][2] THEN "crownjewel" ELSE "-">>]
 
